@@ -105,3 +105,22 @@ func (in *Interp) itoaSym(x *Term) Value {
 	memo.m[x] = s
 	return s
 }
+
+// internal/bytealg.CompareString (assembly; reached from strings.Compare and cmp-style comparators): same model as
+// the []byte variant bytealg.Compare in intercepts.go - decide equality, then lexicographic order.
+func init() {
+	reg("internal/bytealg.CompareString", func(in *Interp, fn *ssa.Function, args []Value) Value {
+		a, ok1 := args[0].(Str)
+		b, ok2 := args[1].(Str)
+		if !ok1 || !ok2 {
+			in.abort("bytealg.CompareString: strings expected, have %T, %T", args[0], args[1])
+		}
+		if in.decide(in.strEq(a, b)) {
+			return CI(0)
+		}
+		if in.decide(in.strLess(a, b)) {
+			return CI(-1)
+		}
+		return CI(1)
+	})
+}
